@@ -100,6 +100,27 @@ func c17Kind[K any](res *ev.Result, unit string, k *kinds.Kind[K], seed uint64, 
 			}
 		}
 	}
+	var fams [][]K
+	total := 0
+	if k.Fan != nil {
+		for f := 0; f < 40; f++ {
+			fam := k.Fan(r)
+			kept := fam[:0:0]
+			for _, c := range fam {
+				if seen[k.ID(c)] {
+					continue
+				}
+				if okk, _ := k.Storable(scratchModel, c); !okk {
+					continue
+				}
+				seen[k.ID(c)] = true
+				scratchModel.Put(c, 0)
+				kept = append(kept, k.Clone(c))
+			}
+			fams = append(fams, kept)
+			total += len(kept)
+		}
+	}
 	emptyBase := liveHeap()
 	// every query method once on an empty tree of this kind (a path of its own in the
 	// library: bookkeeping that is only unbalanced there shows up in the phases below)
@@ -221,28 +242,6 @@ func c17Kind[K any](res *ev.Result, unit string, k *kinds.Kind[K], seed uint64, 
 	if ok && k.Fan != nil {
 		// dense growth then removal: many 256-way nodes are built and retired; what stays
 		// alive afterwards must not depend on that peak
-		// all harness-side data (family tables, identity set, reference, oracle caches) is
-		// built BEFORE the first reading and left untouched until after the last one:
-		// only the tree changes inside the measured window
-		var fams [][]K
-		total := 0
-		for f := 0; f < 40; f++ {
-			fam := k.Fan(r)
-			kept := fam[:0:0]
-			for _, c := range fam {
-				if seen[k.ID(c)] {
-					continue
-				}
-				if okk, _ := k.Storable(scratchModel, c); !okk {
-					continue
-				}
-				seen[k.ID(c)] = true
-				scratchModel.Put(c, 0)
-				kept = append(kept, k.Clone(c))
-			}
-			fams = append(fams, kept)
-			total += len(kept)
-		}
 		before := liveHeap()
 		for _, fam := range fams {
 			for _, c := range fam {
@@ -256,12 +255,6 @@ func c17Kind[K any](res *ev.Result, unit string, k *kinds.Kind[K], seed uint64, 
 			}
 		}
 		after := liveHeap()
-		for _, fam := range fams {
-			for _, c := range fam {
-				scratchModel.Del(c)
-				delete(seen, k.ID(c))
-			}
-		}
 		runtime.KeepAlive(fams)
 		res.Evaluations += int64(2 * total)
 		res.Count("ops_dense_grow_then_remove", int64(2*total))
@@ -286,19 +279,28 @@ func c17Kind[K any](res *ev.Result, unit string, k *kinds.Kind[K], seed uint64, 
 		if t.Size() != 0 {
 			res.Count("observe_only_size_after_delete_all", int64(t.Size()))
 		}
-		keys, fresh = nil, nil
-		scratchModel = nil
-		seen = nil
+		// what the emptied tree keeps alive = heap with the tree reachable minus heap after
+		// the tree (and every closure that captured it) has been released; both readings are
+		// taken in the same harness state, so harness-side memory cancels out
 		end := liveHeap()
-		// keys/absent/prefixes tables were part of the baseline only after emptyBase: compare with the reading taken on a new empty tree
-		extra := int64(end) - int64(afterNew)
-		res.Max("max_heap_after_delete_all_minus_new_tree_bytes", extra)
-		// the key tables dropped above only lower the reading; a positive excess is the tree's
+		runtime.KeepAlive(t)
+		phases = nil
+		t = nil
+		endNoTree := liveHeap()
+		extra := int64(end) - int64(endNoTree)
+		res.Max("max_bytes_kept_alive_by_emptied_tree", extra)
+		// and against the reading taken on the newly created tree (every harness table was
+		// built before that reading and nothing was added since): memory the operations left
+		// behind anywhere, e.g. in package-level lists
+		if sinceNew := int64(end) - int64(afterNew); sinceNew > extra {
+			extra = sinceNew
+		}
+		res.Max("max_heap_after_delete_all_minus_new_tree_bytes", int64(end)-int64(afterNew))
 		if extra > int64(c17EmptySlack) {
 			res.Violate(ev.Violation{Prop: "C17", Kind: k.Name, Unit: unit,
 				What:     "after all keys were deleted the tree retains more than a small constant",
-				Expected: fmt.Sprintf("<= %d bytes above a newly created tree", c17EmptySlack),
-				Observed: fmt.Sprintf("%d bytes (new tree %d, after delete-all %d; process baseline %d)", extra, afterNew, end, emptyBase)})
+				Expected: fmt.Sprintf("<= %d bytes kept alive by the emptied tree", c17EmptySlack),
+				Observed: fmt.Sprintf("%d bytes (heap with the emptied tree reachable %d, after releasing it %d; new tree reading %d, process baseline %d)", extra, end, endNoTree, afterNew, emptyBase)})
 		}
 		res.Inc("delete_all_checks")
 	}
